@@ -491,7 +491,7 @@ func TestC14(t *testing.T) {
 	}
 	g := &gen{r: newRng(1400), noBool: true, maxElem: 10}
 	for round := 0; round < rounds; round++ {
-		ty := g.ty(1 + g.r.Intn(3))
+		ty := g.ty(2 + g.r.Intn(2))
 		if !isComposite(ty) {
 			continue
 		}
@@ -523,7 +523,7 @@ func TestC14(t *testing.T) {
 					hf = tree.GetHashFn()
 				}
 				lg := &gen{r: newRng(seeds[w]), noBool: true, maxElem: 10}
-				hg := &histGen{g: lg, r: lg.r, snaps: true}
+				hg := &histGen{g: lg, r: lg.r, snaps: true, useDefaults: true}
 				cnt := 0
 				s := &hstate{h: hf, count: &cnt}
 				cp, _ := anc.Copy()
